@@ -320,7 +320,7 @@ def shard(ctx):
 
 
 def replay(case):
-    run = do_count(case['blt'], case['options'], budget=60.0, render=True)
+    run = stream.replay_run(case, render=True)
     if run.timed_out or run.E is None:
         return []
     res = [(k, m) for k, m, _ in check(run)[0]]
